@@ -193,3 +193,34 @@ Proof.
   intros rng strct v H. cbn in H.
   destruct rng, strct; repeat (destruct H as [<-|H]; [vm_compute; reflexivity|]); contradiction.
 Qed.
+
+(* ---- the UV_EEXIST rule holds for every descriptor number (0 included) ------------------- *)
+Lemma poll_init_refuses s fd i : reg s fd = Some i ->
+  snd (poll_init s fd) = UV_EEXIST /\ ep (fst (poll_init s fd)) = ep s /\
+  reg (fst (poll_init s fd)) = reg s /\ wq (fst (poll_init s fd)) = wq s.
+Proof. intros H. unfold poll_init, fd_exists. rewrite H. cbn. auto. Qed.
+
+Lemma foreign_open_refused fdo s k sl i : aborted s = false -> slots s sl <> -1 ->
+  reg s (slots s sl) = Some i ->
+  api fdo s (OForeign k sl) = (s, [EForeign k (slots s sl) true]).
+Proof.
+  intros Ha Hs Hr. unfold api. rewrite Ha. destruct (Z.eqb_spec (slots s sl) (-1)); [contradiction|].
+  unfold fd_exists. rewrite Hr. reflexivity.
+Qed.
+
+(* finite sweep over descriptor numbers: a started handle on number fd; a second uv_poll_init
+   and a uv_pipe_open on it are refused and the first handle's kernel registration stays *)
+Definition eexist_ok (rng : bool) (fd : Z) : bool :=
+  let r := run (fun _ => fd) (fun _ => []) (fun _ => []) (sinit rng false)
+               [OOpen 0; OInit 0; OStart 0 ONLY_IN; ORun; OInit 0; OForeign 0 0; ORun] in
+  match probe_watched (snd r) 1 fd with
+  | Some (Some k, w) => meqb k ONLY_IN && meqb w ONLY_IN
+  | _ => false
+  end &&
+  existsb (fun e => match e with EInit 1 KPoll c _ => c =? UV_EEXIST | _ => false end) (snd r) &&
+  existsb (fun e => match e with EForeign _ _ true => true | _ => false end) (snd r).
+
+Lemma eexist_sweep : forall rng fd, In fd [0; 1; 2; 3; 7; 1023; 1024; 65535] -> eexist_ok rng fd = true.
+Proof.
+  intros rng fd H. cbn in H. destruct rng; repeat (destruct H as [<-|H]; [vm_compute; reflexivity|]); contradiction.
+Qed.
